@@ -887,6 +887,14 @@ func init() {
 		"strconv.FormatBool": func(e *Exec, c *frame, a []Value) Value { return strconv.FormatBool(a[0].(*Term).b()) },
 		"strconv.Quote":      func(e *Exec, c *frame, a []Value) Value { return strconv.Quote(e.strOf(a[0])) },
 		"strconv.ParseInt": func(e *Exec, c *frame, a []Value) Value {
+			if ns, ok := a[0].(*NumStr); ok {
+				// decimal literal model of a json.Number: an integer literal parses to its value,
+				// a literal with a fraction or exponent is a syntax error for ParseInt
+				if ns.Kind == "int" {
+					return Tuple{ns.T, Iface{}}
+				}
+				return Tuple{cBV(0, 64), e.newError("strconv.ParseInt: parsing a non-integer literal: invalid syntax")}
+			}
 			v, err := strconv.ParseInt(concStr(e, a[0]), int(sx(a[1].(*Term).u(), 64)), int(sx(a[2].(*Term).u(), 64)))
 			if err != nil {
 				return Tuple{cBV(uint64(v), 64), e.newError(err.Error())}
@@ -901,6 +909,12 @@ func init() {
 			return Tuple{cBV(v, 64), Iface{}}
 		},
 		"strconv.ParseFloat": func(e *Exec, c *frame, a []Value) Value {
+			if ns, ok := a[0].(*NumStr); ok {
+				if ns.Kind == "int" {
+					return Tuple{mk(OSbvToFp, 64, ns.T), Iface{}} // correctly rounded, as strconv does
+				}
+				return Tuple{ns.T, Iface{}}
+			}
 			v, err := strconv.ParseFloat(concStr(e, a[0]), int(sx(a[1].(*Term).u(), 64)))
 			if err != nil {
 				return Tuple{cFP(v, 64), e.newError(err.Error())}
